@@ -197,7 +197,7 @@ def _job(args):
         compile(src2, rel, 'exec')
         repo = Repo(root, {rel: src2})
         with contextlib.redirect_stdout(io.StringIO()):
-            ctx, mod = evaluate(prop, repo)
+            ctx, mod = evaluate(prop, repo, borrow=False)     # helper rules are fuzzed by the property that owns them
         newv, _ = report.split_known(ctx.violations)
         if newv:
             return (desc, 'VIOLATION', '%s: %s' % (newv[0].rule, newv[0].msg[:120]))
